@@ -107,7 +107,7 @@ def replay_tier(pid, exclusions=True):
     paths = [e["replay"] for e in fixed if e["property"] == pid and e["replay"]]
     paths += sorted(os.path.relpath(p, core.ROOT) for p in glob.glob(
         os.path.join(core.ROOT, "replays", "regress", pid + "-*.json")))
-    for rel in paths:
+    for rel in sorted(set(paths)):
         data = json.load(open(os.path.join(core.ROOT, rel)))
         failure = core.replay_case(pid, data["facet"], data["spec"])
         if failure is not None and failure["kind"] != "timeout":
